@@ -475,6 +475,35 @@ pub fn structured(orig: &[u8], map: &ProofMap, rng: &mut Rng, digest: usize) -> 
     out
 }
 
+/// second-generation mutants: structured edits applied to structured mutants that still have a
+/// well-formed wire layout (pairs of edits; `budget` of them, sampled)
+pub fn second_generation(first: &[Mutant], rng: &mut Rng, digest: usize, budget: usize) -> Vec<Mutant> {
+    let mut out = Vec::new();
+    if first.is_empty() {
+        return out;
+    }
+    let mut tries = 0;
+    while out.len() < budget && tries < budget * 4 {
+        tries += 1;
+        let m = &first[rng.usize(first.len())];
+        let Some(map) = map_proof(&m.bytes, digest) else { continue };
+        // the first edit may have made counts and sizes inconsistent with each other: a structured
+        // edit that cannot be carried out on such bytes is skipped
+        let second = match std::panic::catch_unwind(std::panic::AssertUnwindSafe(|| structured(&m.bytes, &map, rng, digest))) {
+            Ok(v) => v,
+            Err(_) => continue,
+        };
+        if second.is_empty() {
+            continue;
+        }
+        for _ in 0..4.min(budget - out.len()) {
+            let s2 = &second[rng.usize(second.len())];
+            out.push(Mutant { class: format!("pair:{}+{}", m.class.split(':').next().unwrap_or(""), s2.class.split(':').next().unwrap_or("")), bytes: s2.bytes.clone() });
+        }
+    }
+    out
+}
+
 /// strips indexes so that mutation classes aggregate: "fri.layer3.values" -> "fri.layer#.values"
 pub fn generic(name: &str) -> String {
     let mut out = String::new();
